@@ -4,11 +4,22 @@ use crate::common::*;
 use crate::pairhist::Bias;
 
 pub fn run(args: &Args) {
+    if let Some(path) = &args.replay {
+        if crate::w_admin::read_replay(path)["failing_input"]["kind"] == "migration_probe" {
+            let mut out = Out::new(&args.out);
+            migration_probes(&mut out);
+            for f in &out.monitor_failures { println!("REPLAY property predicate false: {}", f["what"]); }
+            let bad = !out.monitor_failures.is_empty();
+            out.finish();
+            std::process::exit(if bad { 1 } else { 0 });
+        }
+    }
     crate::c01::run_prop_with(args, "C07", Bias { tiny_swaps: true, spreads: false, toggles: false },
         "histories of 5-35 operations on a real constant-product pair biased to small swaps and frequent fee collections so that pending \
          protocol fees are zero, at or below, and above the collection threshold; non-trivial = at least 3 different operation kinds succeeded; \
          distinct = by hash of the whole case; plus histories on the real three-asset pool (C04 pool stream) and on the real vault with a scripted borrower (loans, collections, deposits, withdrawals)",
         &|out, rng, n| {
+            migration_probes(out);
             // three-asset pool: ledger identity / conservation monitors of the trio stream
             crate::c04_pool::pool_histories(out, rng, (n / 6).max(12));
             // vault: loans (fees charged), collections, and everything else
@@ -20,4 +31,44 @@ pub fn run(args: &Args) {
                 crate::vault_hist::run_history(out, "C07", "vault", rng, crate::vault_hist::Mix::Loans, cw20, fees, funds, crate::vault_hist::Source::Gen(len));
             }
         });
+}
+
+/// a pair, a three-asset pool and a vault (both asset kinds) that have charged, collected and burned fees; then `migrate` on a copy
+/// of their storage (see migr.rs): counters "only grow" also across a migration
+fn migration_probes(out: &mut Out) {
+    use crate::w_vault::{Act, Op};
+    use crate::world::*;
+    use cosmwasm_std::Uint128;
+    use white_whale_std::pool_network::asset::PairType;
+    let u = Uint128::new;
+    // pair
+    for kinds in [[false, false], [false, true]] {
+        if let Ok(mut w) = deploy_pair(kinds, [6, 6], pool_fee(DEC / 100, 3 * DEC / 1000, DEC / 500), PairType::ConstantProduct) {
+            let _ = w.provide("alice", 2_000_000_000, 1_500_000_000, None, None);
+            let _ = w.swap("bob", 0, 300_000_000, None, Some(dec(DEC / 2)), None);
+            let _ = w.swap("carol", 1, 5_000, None, Some(dec(DEC / 2)), None);
+            let _ = w.collect("bob");
+            let _ = w.swap("bob", 1, 200_000_000, None, Some(dec(DEC / 2)), None);
+            crate::migr::probe_pair(out, &w.app.dump_wasm_raw(&w.pair));
+        }
+    }
+    // three-asset pool
+    if let Ok(mut w) = crate::w_stable::deploy_trio([false, true, false], [6, 6, 6], crate::w_stable::trio_fee(DEC / 100, 3 * DEC / 1000, DEC / 500), 100) {
+        let _ = w.provide("alice", [1_000_000_000, 1_000_000_000, 1_000_000_000], None);
+        let _ = w.swap("bob", 0, 1, 50_000_000, None, Some(cosmwasm_std::Decimal::percent(50)));
+        let _ = w.swap("carol", 1, 2, 300_000, None, Some(cosmwasm_std::Decimal::percent(50)));
+        let _ = w.collect("bob");
+        let _ = w.swap("bob", 2, 0, 70_000_000, None, Some(cosmwasm_std::Decimal::percent(50)));
+        crate::migr::probe_trio(out, &w.app.dump_wasm_raw(&w.trio));
+    }
+    // vault
+    for cw20 in [false, true] {
+        if let Ok(mut w) = crate::w_vault::deploy(cw20, (DEC / 100, DEC / 200, DEC / 1000), [0, 9_000_000, 5_000_000, 3_000_000, 3_000_000]) {
+            w.exec(&Op::Deposit { u: 6, amount: u(2_000_000), sent: u(2_000_000) });
+            w.exec(&Op::Run { script: vec![Act::Loan { amount: u(1_500_000), script: vec![Act::RepayQ { neg: false, delta: u(0) }] }] });
+            w.exec(&Op::Collect { u: 7 });
+            w.exec(&Op::Run { script: vec![Act::Loan { amount: u(700_000), script: vec![Act::RepayQ { neg: false, delta: u(0) }] }] });
+            crate::migr::probe_vault(out, &w.app.dump_wasm_raw(&w.vault));
+        }
+    }
 }
